@@ -80,6 +80,7 @@ impl PxWorld {
             4,  // 11 incLp
             4,  // 12 incFarm
             4,  // 13 bad
+            4,  // 14 transfer
         ];
         let k = rng.weighted(&weights);
         let farm_of = |f: u8| if f == 0 { "L" } else { "W" };
@@ -220,6 +221,15 @@ impl PxWorld {
                 let a = Self::amount_of(rng, &have);
                 format!("incFarm {} {}:{} {}", u, n, a, if rng.chance(1, 10) { 100 } else { *rng.pick(&opts) })
             }
+            14 => {
+                let to = rng.range(1, nu);
+                let use_f = rng.chance(1, 2);
+                let bag = if use_f { &s.u_f[i] } else { &s.u_w[i] };
+                match Self::pick_from_bag(rng, bag) {
+                    Some((n, have)) => format!("transfer {} {} {} {}:{}", u, to, if use_f { "wfarm" } else { "wlp" }, n, Self::amount_of(rng, &have)),
+                    None => self.fallback(rng, &s, u),
+                }
+            }
             _ => format!(
                 "bad {} {}",
                 rng.pick(&["otherToFarm", "baseToRemove", "twoUnlocked", "notPair", "notFarm", "mergeOne", "wrongWrapped"]),
@@ -248,10 +258,6 @@ impl PxWorld {
             None => format!("lock {} {} 360", u, rng.magnitude(20)),
         }
     }
-}
-
-fn rng_false() -> bool {
-    false
 }
 
 impl World for PxWorld {
